@@ -4,6 +4,7 @@ from gen import SeqGen
 from props.c14 import level_element
 
 ID = "C15"
+HEAP_SUMMARY = True      # end every program with the reference-level observation (BB.Model.Heap vs id() walk)
 LEAN_MODULE = "BB.Properties.C15"
 QUICK_N = 60
 THOROUGH_N = 1200
